@@ -1,4 +1,6 @@
 import ShredModel.Lemmas.Scenario
+import ShredModel.Lemmas.Examples
+import ShredModel.Lemmas.SeqTrace
 import ShredModel.Lemmas.NestedTop
 import ShredModel.Lemmas.Window
 import ShredModel.Lemmas.Effect
@@ -101,6 +103,13 @@ theorem C01_no_sibling_borrow_conflict (l : List (Ev SysTag)) (hl : Traces sc.pl
     exact hno (Or.inr ⟨r, mem_fetchedReads _ r hr, (mem_fetchedWrites _ r).mp hry⟩)
 
 end Scenario
+end Shred
+
+namespace Shred
+/-- non-vacuity: a concrete registration sequence (dependency, barrier, thread-local system) with
+a trace, and a concrete dispatcher with a batch (two inner stages, dispatched twice) with a trace -/
+example : (∃ l, Traces exScenario.plan l) ∧ (∃ l, Traces (exLevel.task true []) l) :=
+  ⟨⟨_, traces_seqTrace _⟩, ⟨_, traces_seqTrace _⟩⟩
 end Shred
 
 #print axioms Shred.Scenario.C01_isolation
